@@ -33,6 +33,9 @@ pub struct CfgOpts {
     /// per mille of static keys produced by snow's own Builder::generate_keypair (through the
     /// RNG seam) instead of the harness
     pub snow_keygen: u32,
+    /// per mille of nodes that are given the peer's (true) static public key although the pattern
+    /// does not pre-share it (a pinned, superfluous key - allowed by the builder)
+    pub surplus_rs: u32,
     /// use exactly this protocol name (systematic enumerations)
     pub force_name: Option<String>,
     /// use exactly this backend on both nodes
@@ -50,6 +53,7 @@ impl Default for CfgOpts {
             late_psk: 0,
             only_dh: None,
             snow_keygen: 0,
+            surplus_rs: 0,
             force_name: None,
             force_backend: None,
         }
@@ -146,6 +150,11 @@ pub fn gen_static_snow(rng: &mut Rng, name: &str, backend: Backend) -> Option<(V
 }
 
 pub fn gen_prologue(rng: &mut Rng) -> Vec<u8> {
+    if rng.chance(1, 80) {
+        // longer than the 65535-byte message limit (a prologue has no such limit)
+        let l = *rng.pick(&[65_535usize, 65_536, 70_001]);
+        return rng.bytes(l);
+    }
     let len = match rng.below(12) {
         0..=2 => 0,
         3 => 1,
@@ -196,7 +205,13 @@ pub fn gen_session(rng: &mut Rng, name: &str, opts: &CfgOpts, seed_salt: u64) ->
             name: name.to_string(),
             initiator,
             s_priv: if proto.needs_local_static(initiator) { Some(mys.clone()) } else { None },
-            rs_pub: if proto.needs_remote_static(initiator) { Some(peerp.clone()) } else { None },
+            rs_pub: if proto.needs_remote_static(initiator)
+                || (opts.surplus_rs > 0 && proto.needs_local_static(!initiator) && rng.chance(opts.surplus_rs as u64, 1000))
+            {
+                Some(peerp.clone())
+            } else {
+                None
+            },
             psks: mypsks,
             prologue: prologue.clone(),
             backend: pick_backend(rng, opts.backends),
